@@ -53,7 +53,7 @@ def flat_text(f, layout=0, rnd=None):
             parts.append(sp + op + s2 + t)
         return ''.join(parts)
     if k == 'num':
-        return num_spelling(f['v'], rnd)
+        return f['text'] if 'text' in f else num_spelling(f['v'], rnd)
     if k == 'str':
         return str_spelling(f['v'], rnd)
     if k == 'var':
@@ -71,6 +71,11 @@ def rand_operand(rnd, depth):
     r = rnd.random()
     if depth <= 0 or r < 0.35:
         c = rnd.random()
+        if c < 0.08:
+            # literals whose nearest double differs from the decimal written, or that need an exponent form
+            t = rnd.choice(['9007199254740993', '12345678901234567890', '18014398509481985', '1e+22', '0.1', '123456789.125', '1.0000000000000001',
+                            '4503599627370497.5', '100000000000000000000000', '5e-324', '0.30000000000000004'])
+            return {'k': 'num', 'v': A.anum(float(t)), 'text': t}
         if c < 0.35:
             return {'k': 'num', 'v': A.anum(rnd.choice([0, 1, 2, 7, 10, 100, 1500, 0.5, 2.25]))}
         if c < 0.6:
